@@ -145,6 +145,13 @@ def make_stale(rng, tier):
         init.append(_encode_variant(rng, _small_text(rng, f, 0)) if rng.random() < 0.9 else None)
     modes = ['cache'] * 5 + ['cache+diff'] * 3 + ['nocache', 'diff']
     ops = []
+    if rng.random() < 0.04:
+        # the in-memory cache at (and around) its default size trigger
+        cfg['size_trigger'] = 600
+        cfg['min_survival'] = rng.choice([600, 600, 5])
+        ops.append({'k': 'bulk', 'p': 0, 'g': 0, 'c': 0, 'n': rng.choice([590, 598, 599, 600, 601, 640])})
+        if rng.random() < 0.5:
+            ops.append({'k': 'clock', 'dt': rng.choice([5.0, 700.0])})
     nops = rng.randint(6, 30 if tier == 'quick' else 60)
     while len(ops) < nops:
         r = rng.random()
